@@ -281,6 +281,39 @@ def ob_compose_after_block(c1: int, c2: int, kf: int, c: bool) -> bool:
     return HTML(A + B)(**ns) == HTML(A)(**ns) + HTML(B)(**ns)
 
 
+BOGUS = {'ent_dash': '&dtml-', 'ent_dot': '&dtml.', 'dtml': '<dtml-', 'dtml_close': '</dtml-', 'ssi': '<!--#', 'dtml_noend': '<dtml-', 'ssi_noend': '<!--#'}
+
+
+def make_bogus(key):
+    """text that merely looks like the beginning of a tag is literal text: it is emitted verbatim and real tags after it
+    are still rendered"""
+    opener = BOGUS[key]
+
+    def ob(c1: int, c2: int, km: int) -> bool:
+        x = chr(c1) + chr(c2)
+        if ';' in x or '"' in x:
+            return True
+        if key.startswith('ent'):
+            mid = [' in ', ' ', '+'][pick(km, 3)]                 # a character no entity name can contain, before the next ';'
+        else:
+            if c1 <= 32 or ('a' <= chr(c1) <= 'z') or ('A' <= chr(c1) <= 'Z') or chr(c1) == '/':
+                return True                                      # could be a real tag name: outside this obligation
+            if '>' in x:
+                return True
+            mid = [' in >', '>', ' a="b">'][pick(km, 3)] if not key.endswith('noend') else [' in ', '', ' a="b" '][pick(km, 3)]
+            if key == 'ssi':
+                mid = mid.replace('>', '-->')
+        if key.endswith('noend'):
+            src = 'A' + opener + x + mid + '&dtml-y;Z'            # no '>' / '-->' anywhere after the opener
+            want = 'A' + opener + x + mid + 'Y&amp;Z'
+        else:
+            src = 'A' + opener + x + mid + '<dtml-var x>; &dtml-y;Z'
+            want = 'A' + opener + x + mid + 'X<; Y&amp;Z'
+        return HTML(src)(x='X<', y='Y&') == want
+    ob.__name__ = 'ob_bogus_' + key
+    return ob
+
+
 def explain(obname, args):
     return ''
 
@@ -316,3 +349,7 @@ for _a, _b, _pt in (('var', 'var', ''), ('ifblock', 'var', ''), ('ifblock', 'var
                           data='last character of A and first character of B: symbolic code points (any value)', selectors='A = %r + %r + c1, B = c3 + %r' % (COMP_A[_a], _pt, COMP_B[_b]),
                           outside='seams with more than 2 symbolic characters'))
 OBLIGATIONS.append(Ob('compose_after_block', ob_compose_after_block, CP[:2] + ['0 <= kf < 4'], timeout=tier(280, 1200), data='start of B: fragment + 2 symbolic code points', selectors='A ends with </dtml-if>'))
+for _k in BOGUS:
+    OBLIGATIONS.append(Ob('bogus_' + _k, make_bogus(_k), CP[:2] + ['0 <= km < 3'], timeout=tier(280, 1200), path_timeout=60,
+                          data='two symbolic code points (any value) right after the opener text', selectors='opener %r that does not start a tag (%s), followed by real tags' % (BOGUS[_k], _k),
+                          outside='openers followed by text that does form a tag (covered by the slot obligations)'))
